@@ -108,8 +108,49 @@ def fingerprint(fn: ast.FunctionDef) -> str:
     return hashlib.sha256(text.encode()).hexdigest()[:24]
 
 
+MODULE_HEADERS = ["tucan/__init__.py", "tucan/io/__init__.py", "tucan/io/exception.py", "tucan/graph_attributes.py", "tucan/graph_utils.py",
+                  "tucan/canonicalization.py", "tucan/serialization.py", "tucan/io/molfile_reader.py", "tucan/io/molfile_v3000_reader.py",
+                  "tucan/io/molfile_v2000_reader.py", "tucan/io/molfile_writer.py", "tucan/parser/parser.py", "tucan/element_attributes.py"]
+
+
+def module_header_fingerprint(path: str) -> str:
+    """what a module does at import time besides defining functions/classes: the bindings of every imported name that is
+    actually used in the module (so `from operator import lt as gt` or a re-export of a different function is seen, an unused
+    new import is not), the class headers (bases), and every other module-level statement; order-insensitive for imports"""
+    tree = ast.parse(open(path).read())
+    used = {n.id for n in ast.walk(tree) if isinstance(n, ast.Name)} | {n.value.id for n in ast.walk(tree) if isinstance(n, ast.Attribute) and isinstance(n.value, ast.Name)}
+    exported_all = path.endswith("__init__.py")
+    imports, others = [], []
+    for node in tree.body:
+        if isinstance(node, ast.Import):
+            for a in node.names:
+                if exported_all or (a.asname or a.name.split(".")[0]) in used:
+                    imports.append(f"import {a.name} as {a.asname or a.name}")
+        elif isinstance(node, ast.ImportFrom):
+            for a in node.names:
+                if exported_all or (a.asname or a.name) in used:
+                    imports.append(f"from {'.' * node.level}{node.module} import {a.name} as {a.asname or a.name}")
+        elif isinstance(node, ast.FunctionDef):
+            others.append("def " + node.name + " decorators=" + ",".join(ast.dump(d, annotate_fields=False) for d in node.decorator_list))
+        elif isinstance(node, ast.ClassDef):
+            body = [ast.dump(x, annotate_fields=False) for x in node.body if not isinstance(x, (ast.FunctionDef, ast.Expr, ast.Pass))]
+            others.append("class " + node.name + "(" + ",".join(ast.unparse(b) for b in node.bases) + ") " + ";".join(body)
+                          + " methods=" + ",".join(sorted(x.name + "@" + ",".join(ast.unparse(d) for d in x.decorator_list) for x in node.body if isinstance(x, ast.FunctionDef))))
+        elif isinstance(node, ast.Expr) and isinstance(node.value, ast.Constant):
+            continue  # docstring
+        else:
+            if isinstance(node, ast.AnnAssign) and node.value is not None:
+                node = ast.Assign(targets=[node.target], value=node.value)
+            others.append(ast.dump(node, annotate_fields=False, include_attributes=False))
+    text = "|".join(sorted(imports)) + "##" + "|".join(others)
+    return hashlib.sha256(text.encode()).hexdigest()[:24]
+
+
 def current(repo: str) -> dict:
     out = {}
+    for rel in MODULE_HEADERS:
+        p = os.path.join(repo, rel)
+        out["module:" + rel] = module_header_fingerprint(p) if os.path.exists(p) else "<missing>"
     for rel, names in GLUE.items():
         tree = ast.parse(open(os.path.join(repo, rel)).read())
         found = {}
